@@ -314,8 +314,26 @@ Fixpoint protect_go (esc : bool) (s : str) : str :=
   end.
 Definition protect (s : str) : str := protect_go false s.
 
-(* the value of a string token with body [body] (the text between the quotes) *)
-Definition convert (nl : str) (body : str) : str + uerr := unicode_escape (bsr (protect (normalize nl body))).
+(* _line_continuation_re.sub: a backslash-newline pair whose backslash is not itself escaped is removed
+   (backslashes are read in pairs from the left) *)
+Fixpoint uncontinue (s : str) : str :=
+  match s with
+  | [] => []
+  | c :: r =>
+      if c =? 92 then
+        match r with
+        | d :: r' => if d =? 10 then uncontinue r' else c :: d :: uncontinue r'
+        | [] => [c]
+        end
+      else c :: uncontinue r
+  end.
+
+(* the value of a string token with body [body] (the text between the quotes).  Lexer.tokeniter has
+   already turned every line break of the source into LF ([normalize [10]]); then continuations are
+   removed, the remaining line breaks become the newline_sequence, lone backslashes before non-ASCII
+   characters are protected, and the encode / decode pair unescapes *)
+Definition convert (nl : str) (body : str) : str + uerr :=
+  unicode_escape (bsr (protect (normalize nl (uncontinue (normalize [10] body))))).
 
 (* parser.parse_primary: adjacent string tokens are joined *)
 Definition parse_strings (values : list str) : str := concat values.
